@@ -466,6 +466,9 @@ def run_tear(case) -> dict:
         return {"viol": viol, "digest": world.digest() + out.brief(), "key": common.key_hash(case) if state.get("done") else None,
                 "fired": {"reqtear" if direction == "to-libdc" else "replytear": int(bool(state.get("done")))},
                 "probes": {"tear_outcome_" + out.kind: 1, "tear_vt": 1}, "vtime_ns": world.stats.get("vtime_ns", 0)}
+    import tracemalloc
+
+    tracemalloc.start()
     with world.installed(ctx_factory=drive.stub_ctx_factory(cfg, record)):
         with common.LineBudget(LINE_A + LINE_B * 6000) as lb:
             budget.append(lb)
@@ -473,8 +476,13 @@ def run_tear(case) -> dict:
                 out = drive.classify(lambda: dclient._sync_get_key(DC, sd, rk.root_key_id, 361, 5, 6))
             else:
                 out = drive.classify(lambda: drive.run_async(world, lambda: dclient._async_get_key(DC, sd, rk.root_key_id, 361, 5, 6), random.Random(seed)))
+    _cur, peak = tracemalloc.get_traced_memory()
+    tracemalloc.stop()
     viol = None
-    if out.kind in ("budget", "spin"):
+    if peak > 32_000_000 + 256 * total[0]:
+        viol = common.violation("C12", "termination", fl, "memory", drive.exc_sig(out)[1], direction,
+                                f"garbled fragment ({direction}) made the decoders allocate {peak >> 20} MiB (peak) for {total[0]} garbled bytes")
+    if not viol and out.kind in ("budget", "spin"):
         et, frame = drive.exc_sig(out)
         viol = common.violation("C12", "termination", fl, out.kind, frame, direction, f"garbled fragment ({direction}) was not processed within the line budget: {out.exc} lines={lb.count}")
     return {"viol": viol, "digest": world.digest() + out.brief(), "key": common.key_hash(case) if state.get("done") else None,
